@@ -312,6 +312,28 @@ def run_lines(binary, lines, timeout=900, shards=NPROC, wrap_ulimit=False):
     return out
 
 
+def run_isolated(binary, lines, timeout=60, wrap_ulimit=False):
+    """One process per case (a crash or abort of the implementation is observed, not suffered)."""
+    from concurrent.futures import ThreadPoolExecutor
+
+    def one(line):
+        cmd = [binary]
+        if wrap_ulimit:
+            cmd = ['bash', '-c', 'ulimit -s unlimited 2>/dev/null; exec "$0"', binary]
+        try:
+            p = subprocess.run(cmd, input=(line + '\n').encode(), stdout=subprocess.PIPE, stderr=subprocess.PIPE,
+                               timeout=timeout, env=ENV)
+        except subprocess.TimeoutExpired:
+            return '(CRASH timeout #)'
+        out = p.stdout.decode('utf-8', 'replace').split('\n')[0]
+        if p.returncode != 0 or not out:
+            return '(CRASH %s %s)' % (p.returncode, sexp.dumps((p.stderr or b'')[-160:]))
+        return out
+
+    with ThreadPoolExecutor(max_workers=NPROC) as ex:
+        return list(ex.map(one, lines))
+
+
 def run_one(binary, line, timeout=60):
     return run_lines(binary, [line], timeout=timeout, shards=1)[0]
 
@@ -545,9 +567,14 @@ class RunCtx:
             self.stats['_exhaustive'] = True
         release = getattr(prop, 'RELEASE_TOO', False)
         hb = prop.harness_for(name) if hasattr(prop, 'harness_for') else prop.HARNESS_BINS[0]
-        impl = run_lines(harness_bin(hb), cases)
-        impl_rel = run_lines(harness_bin(hb, release=True), cases) if release else None
-        model = run_lines(model_bin(prop.MODEL), cases, wrap_ulimit=True) if (self.model_ok and getattr(prop, 'MODEL', None)) else None
+        if name in getattr(prop, 'ISOLATED', ()):
+            impl = run_isolated(harness_bin(hb), cases)
+            impl_rel = run_isolated(harness_bin(hb, release=True), cases) if release else None
+            model = run_isolated(model_bin(prop.MODEL), cases, timeout=300, wrap_ulimit=True) if (self.model_ok and getattr(prop, 'MODEL', None)) else None
+        else:
+            impl = run_lines(harness_bin(hb), cases)
+            impl_rel = run_lines(harness_bin(hb, release=True), cases) if release else None
+            model = run_lines(model_bin(prop.MODEL), cases, wrap_ulimit=True) if (self.model_ok and getattr(prop, 'MODEL', None)) else None
         self.evaluations += len(cases)
         for i, c in enumerate(cases):
             io = impl[i]
